@@ -19,10 +19,8 @@ structure KInv (s : St) : Prop where
   /-- `r.exited` is set only by the exit bookkeeping of the current instance -/
   curExited : ∀ k r i y, s.key k = some r → r.cur = some i → r.exited = true →
     s.gens[r.gen]? = some y → ∃ x, y.insts[i]? = some x ∧ x.st = .recorded
-  /-- every constructor so far returned a routine … -/
-  fn : ∀ k r, s.key k = some r → r.hasFn = true
-  /-- … and none is announced to return nil -/
-  nn : s.nilNext = []
+  /-- only a record with a routine is ever started -/
+  exFn : ∀ k r, s.key k = some r → (r.cur.isSome = true ∨ r.exited = true) → r.hasFn = true
 
 @[simp] theorem gens_setRec (s : St) (k : Nat) (v : Option Rec) : (setRec s k v).gens = s.gens := rfl
 
@@ -52,7 +50,7 @@ structure GSame (s : St) (g : Nat) (f : G → G) : Prop where
 
 theorem kinv_modG (s : St) (g : Nat) (f : G → G) (h : KInv s) (hs : GSame s g f)
     (hf : ∀ y, s.gens[g]? = some y → Chain.Inv (proj (f y))) : KInv (modG s g f) := by
-  refine ⟨ci_modG s g f h.chain hf, ?_, ?_, ?_, fun k r hk => h.fn k r (by simpa using hk), h.nn⟩
+  refine ⟨ci_modG s g f h.chain hf, ?_, ?_, ?_, fun k r hk => h.exFn k r (by simpa using hk)⟩
   · intro k r hk
     obtain ⟨y, hy, hyk⟩ := h.genKey k r hk
     rw [gens_modG, hy]
@@ -98,15 +96,23 @@ theorem kinv_cancelOpt (s : St) (g : Nat) (o : Option Nat) (h : KInv s) : KInv (
 
 /-- changing run-time fields of the record of `k` that the invariant does not read -/
 theorem kinv_setRec (s : St) (k : Nat) (r r' : Rec) (h : KInv s) (hk : s.key k = some r)
-    (hg : r'.gen = r.gen) (hc : r'.cur = none ∨ (r'.cur = r.cur ∧ r'.exited = r.exited))
+    (hg : r'.gen = r.gen) (hc : (r'.cur = none ∧ r'.exited = r.exited) ∨ (r'.cur = r.cur ∧ r'.exited = r.exited))
     (hfn : r'.hasFn = r.hasFn := by rfl) :
     KInv (setRec s k (some r')) := by
-  refine ⟨h.chain, ?_, ?_, ?_, ?_, h.nn⟩
+  refine ⟨h.chain, ?_, ?_, ?_, ?_⟩
   rotate_left 3
-  · intro k' r'' hk'
+  · intro k' r'' hk' hce
     by_cases hkk : k' = k
-    · subst hkk; simp at hk'; subst hk'; rw [hfn]; exact h.fn k' r hk
-    · simp [hkk] at hk'; exact h.fn k' r'' hk'
+    · subst hkk; simp at hk'; subst hk'; rw [hfn]
+      apply h.exFn k' r hk
+      rcases hc with hc | hc
+      · rcases hce with hce | hce
+        · rw [hc.1] at hce; simp at hce
+        · exact Or.inr (hc.2 ▸ hce)
+      · rcases hce with hce | hce
+        · exact Or.inl (hc.1 ▸ hce)
+        · exact Or.inr (hc.2 ▸ hce)
+    · simp [hkk] at hk'; exact h.exFn k' r'' hk' hce
   · intro k' r'' hk'
     by_cases hkk : k' = k
     · subst hkk; simp at hk'; subst hk'; rw [hg]; exact h.genKey k' r hk
@@ -115,24 +121,24 @@ theorem kinv_setRec (s : St) (k : Nat) (r r' : Rec) (h : KInv s) (hk : s.key k =
     by_cases hkk : k' = k
     · subst hkk; simp at hk'; subst hk'
       rcases hc with hc | hc
-      · rw [hc] at hcur; simp at hcur
+      · rw [hc.1] at hcur; simp at hcur
       · rw [hg] at hy; exact h.curLast k' r i y hk (hc.1 ▸ hcur) (hc.2 ▸ hex) hy
     · simp [hkk] at hk'; exact h.curLast k' r'' i y hk' hcur hex hy
   · intro k' r'' i y hk' hcur hex hy
     by_cases hkk : k' = k
     · subst hkk; simp at hk'; subst hk'
       rcases hc with hc | hc
-      · rw [hc] at hcur; simp at hcur
+      · rw [hc.1] at hcur; simp at hcur
       · rw [hg] at hy; exact h.curExited k' r i y hk (hc.1 ▸ hcur) (hc.2 ▸ hex) hy
     · simp [hkk] at hk'; exact h.curExited k' r'' i y hk' hcur hex hy
 
 theorem kinv_delRec (s : St) (k : Nat) (h : KInv s) : KInv (setRec s k none) := by
-  refine ⟨h.chain, ?_, ?_, ?_, ?_, h.nn⟩
+  refine ⟨h.chain, ?_, ?_, ?_, ?_⟩
   rotate_left 3
   · intro k' r hk'
     by_cases hkk : k' = k
     · subst hkk; simp at hk'
-    · simp [hkk] at hk'; exact h.fn k' r hk'
+    · simp [hkk] at hk'; exact h.exFn k' r hk'
   · intro k' r hk'
     by_cases hkk : k' = k
     · subst hkk; simp at hk'
@@ -178,12 +184,14 @@ theorem kinv_start (s : St) (k : Nat) (r : Rec) (force : Bool) (h : KInv s) (hk 
           intro y' hy'
           rw [hy] at hy'; simp at hy'; subst hy'
           exact inv_spawn y r.id r.data (h1.chain r.gen y hy)
-        refine ⟨hci, ?_, ?_, ?_, ?_, h1.nn⟩
+        refine ⟨hci, ?_, ?_, ?_, ?_⟩
         rotate_left 3
-        · intro k' r' hk'
+        · intro k' r' hk' hce
           by_cases hkk : k' = k
-          · subst hkk; simp at hk'; subst hk'; exact h1.fn k' r hk1
-          · simp [hkk] at hk'; exact h1.fn k' r' hk'
+          · subst hkk; simp at hk'; subst hk'
+            rename_i hfn _
+            have := hfn; simp at this; exact this.2
+          · simp [hkk] at hk'; exact h1.exFn k' r' hk' hce
         · intro k' r' hk'
           by_cases hkk : k' = k
           · subst hkk; simp at hk'; subst hk'
